@@ -134,6 +134,18 @@ func prepare(work string, race bool) string {
 		}
 		return nil
 	})
+	// conformance micro-programs: the same sources once rewritten, once unchanged
+	spDir := filepath.Join(verifDir, "selfprog")
+	if _, err := os.Stat(spDir); err == nil {
+		spRes, err := rewrite.Dir(spDir, filepath.Join(work, "selfprog"), rewrite.Options{Module: mod})
+		if err != nil {
+			fatal("rewrite selfprog: %v", err)
+		}
+		for o, n := range spRes.Files {
+			repl[filepath.Join(repoDir, "internal", "verif", "selfprog", filepath.Base(o))] = n
+			repl[filepath.Join(repoDir, "internal", "verif", "selfprognative", filepath.Base(o))] = o
+		}
+	}
 	ovb, _ := json.MarshalIndent(map[string]any{"Replace": repl}, "", " ")
 	ovf := filepath.Join(work, "overlay.json")
 	if err := os.WriteFile(ovf, ovb, 0o644); err != nil {
